@@ -484,7 +484,7 @@ func decode(res mc.Result) (Out, string) {
 // the baseline of the program.
 func (e *explorer) runAll(k int, all []sched) {
 	// batches, so that the internal deadline can stop the exploration (exhaustive=false then)
-	const batch = 512
+	const batch = 128
 	for lo := 0; lo < len(all); lo += batch {
 		if e.r.Expired() {
 			e.r.Cap("deadline")
